@@ -124,6 +124,26 @@ theorem udp_dec_total (bs : Bits) :
   | ok p => exact Or.inl ⟨p, rfl⟩
   | error e => rw [UdpHeader.dec_errors bs e h]; exact Or.inr rfl
 
+/-! ## relations among the words of a block do not matter (input class of the differential run, round 4)
+
+`rate_dec_enc` quantifies over all data octets and check values, hence also over blocks whose 32-bit words satisfy
+arithmetic relations among each other and with the CRC-32 (two independent 32-bit coincidences: probability 2⁻⁶⁴ under
+sampling; constructed by `relation_cases` in `harness/props/c03.py`). -/
+
+/-- twenty data octets whose 32-bit words satisfy w₀ ^^^ w₁ = w₂ -/
+abbrev relData : Bytes :=
+  [0x4d, 0x6f, 0x72, 0x69, 0x1a, 0x2b, 0x3c, 0x4d, 0x57, 0x44, 0x4e, 0x24, 0x00, 0xc0, 0xff, 0xee, 0x5e, 0xed, 0x12, 0x34]
+
+/-- an unconfirmed last block of rate 1 whose data words satisfy w₀ ^^^ w₁ = w₂ and w₃ ^^^ w₄ = CRC-32 rotated left by
+eight bits: the CRC-32 is written after the twenty data octets and everything is read back -/
+example :
+    (0x4d6f7269 ^^^ 0x1a2b3c4d = 0x57444e24 ∧ 0x00c0ffee ^^^ 0x5eed1234 = (0xda5e2ded * 256 + 0xda5e2ded / 2 ^ 24) % 2 ^ 32) ∧
+    RateData.WF rate1 .unconfirmedLast ⟨relData, 0, 0, 0xda5e2ded⟩ ∧
+    RateData.enc rate1 ⟨relData, 0, 7, 0xda5e2ded⟩ = bytesToBits relData ++ natToBits 32 0xda5e2ded ∧
+    (RateData.dec rate1 (fun _ _ _ => 7) .unconfirmedLast (RateData.enc rate1 ⟨relData, 0, 7, 0xda5e2ded⟩)).toOption
+      = some ⟨relData, 0, 7, 0xda5e2ded⟩ := by
+  decide +kernel
+
 /-! ## non-vacuity -/
 
 example : (⟨zeros 8, .activity 8 3 (natToBits 8 0xA5) (natToBits 8 0x5A)⟩ : ShortLc).WF := by decide
